@@ -20,6 +20,7 @@ CONSTANTS
   FIX_STALE = TRUE
   FIX_RENAMEDIR = TRUE
   FIX_SCANWATCHED = TRUE
+  FIX_RETRY = TRUE
   RECORD = FALSE
 INVARIANTS NotDone
 CHECK_DEADLOCK FALSE
